@@ -167,3 +167,58 @@ def run_threads(prop: str, gen, ctx, n_threads: int = 4, n_cases: int = 60) -> N
     for form, msg, case in problems[:3]:
         wit = {"vendor": case.vendor, "layout": case.layout, "body": case.body, "frame": case.frame, "expect_body": _plain(case.expect_body), "expect_frame": _plain(case.expect_frame), "threads": True}
         ctx.violation(sig_for(prop, f"{prop}:{form}:differs-under-concurrent-threads", msg.split(": ", 1)[-1]), f"{case.vendor} {case.layout} {form} decoded in {n_threads} threads at once: {msg} (the same octets decode correctly in one thread)", wit)
+
+
+def digest_twins(prop: str, vendor: str, ctx, rounds: int = 6) -> None:
+    """Pairs of different lists of equal length that CRC-32 / Adler-32 cannot tell apart (vf/gen/collide.py), decoded one after the
+    other, body and frame: each must come back with its own registers (a memo keyed by a cheap digest returns the first one's)."""
+    import struct
+
+    from vf.gen import collide
+    from vf.ref import cosem_enc as ce
+    from vf.ref import names
+
+    mod = importlib.import_module(f"han.{vendor}")
+    rng = ctx.rng(prop, "digest-twins")
+    if vendor == "aidon":
+        c1, c2 = (1, 0, 1, 7, 0, 255), (1, 0, 2, 7, 0, 255)
+        build = lambda fr: ce.aidon_body([ce.aidon_element(c1, "u32", struct.unpack(">I", fr[:4])[0], 0, ce.UNIT_W), ce.aidon_element(c2, "u32", struct.unpack(">I", fr[4:])[0], 0, ce.UNIT_W)])
+        invoke = None
+    elif vendor == "kaifa":
+        c1, c2 = (1, 0, 1, 7, 0, 255), (1, 0, 2, 7, 0, 255)
+        build = lambda fr: ce.kaifa_obis_body([(c1, ce.u32(struct.unpack(">I", fr[:4])[0])), (c2, ce.u32(struct.unpack(">I", fr[4:])[0]))])
+        invoke = None
+    else:
+        c1, c2 = (1, 1, 1, 7, 0, 255), (1, 1, 2, 7, 0, 255)
+        build = lambda fr: ce.kamstrup_body("Kamstrup_V0001", [(c1, ce.u32(struct.unpack(">I", fr[:4])[0])), (c2, ce.u32(struct.unpack(">I", fr[4:])[0]))])
+        invoke = b"\x00\x00\x00\x00"
+    n1, n2 = names.name_of(c1), names.name_of(c2)
+    dt12 = ce.datetime12(2026, 9, 28, 1, 12, 0, 0, None, None, 0)
+    for k in range(rounds):
+        free = rng.randbytes(8)
+        if k % 2 == 0:
+            other, kind = collide.linear_twin(free, rng, build), "crc32"
+        else:
+            kind = "adler32"
+            t = collide.adler_twin(free[:4], rng)
+            other = None if t is None else t + free[4:]
+            if other is not None and collide.adler32(build(other)) != collide.adler32(build(free)):
+                other = None
+        if other is None:
+            ctx.count("digest_twin_not_available")
+            continue
+        ctx.count(f"digest_colliding_list_pairs_{kind}")
+        for fr in (free, other, free):
+            a, b = struct.unpack(">I", fr[:4])[0], struct.unpack(">I", fr[4:])[0]
+            body = build(fr)
+            frame = ce.apdu(body, dt12, True, invoke) if invoke is not None else ce.apdu(body, dt12, True)
+            for form, fn, data in (("body", mod.decode_notification_body, body), ("frame", mod.decode_frame_content, frame)):
+                wit = {"vendor": vendor, "layout": f"{kind}-twin", "body": body, "frame": frame, "expect_body": {n1: ["int", a], n2: ["int", b]}, "expect_frame": {n1: ["int", a], n2: ["int", b]}}
+                try:
+                    got = fn(data)
+                except Exception as ex:
+                    ctx.violation(f"{prop}:{form}:exception:{p1_mon.where(ex)}", f"{vendor} two-register list: decoder raised {ex!r:.160}", wit)
+                    continue
+                if got.get(n1) != a or got.get(n2) != b:
+                    ctx.violation(f"{prop}:{form}:value-of-another-list", f"{vendor} list with {n1}={a}, {n2}={b} decoded to {got.get(n1)!r}, {got.get(n2)!r} (a list of the same length and {kind} was decoded just before)", wit)
+        ctx.case(f"{prop}twin{k}", True, 6)
